@@ -295,6 +295,55 @@ def path_cropped_over_repeated_segments_sampled(c, laps):
     c.ensures('length-is-length(T0,T1)', abs(cr.length() - path.length(T0, T1)) <= 1e-6 * path.length())
 
 
+@contract('C09', 'path.Path.cropped', params=[{'closed': b, '_bounded_only': True} for b in (False, True)])
+def path_cropped_with_an_end_next_to_a_joint_sampled(c, closed):
+    """bounded stand-in for the band the deductive Path.cropped contracts leave out: T0 and/or T1
+    exactly on a joint or a few 1e-10 / 1e-12 / ulps next to it, where the code snaps by isclose.
+    Continuous paths of 3..5 segments (Line / Quadratic / Cubic), wrap-around crops when closed.
+    The crop starts at point(T0), ends at point(T1), is joined, and has the length of that part."""
+    import svgpathtools.path as sp
+    n = 3 + int(abs(c.real('n')) * 10) % 3
+    V = [_fold(c.cplx('v%d' % i)) for i in range(n + 1)]
+    if closed:
+        V[n] = V[0]
+    for i in range(n):
+        c.assume(abs(V[i] - V[i + 1]) > 0.5)
+    segs = []
+    for i in range(n):
+        kind = int(abs(c.real('k%d' % i)) * 10) % 3
+        a, b = V[i], V[i + 1]
+        if kind == 0:
+            segs.append(sp.Line(a, b))
+        elif kind == 1:
+            segs.append(sp.QuadraticBezier(a, (a + b) / 2 + 0.3j * (b - a) * (1 + abs(c.real('q%d' % i)) % 1), b))
+        else:
+            segs.append(sp.CubicBezier(a, a + (b - a) * (0.3 + 0.2j), b - (b - a) * (0.3 + 0.25j * (abs(c.real('q%d' % i)) % 1)), b))
+    path = sp.Path(*segs)
+    OFFS = [0.0, 1e-10, -1e-10, 1e-12, -1e-12, 3e-16, -3e-16, 1e-9, -1e-9]
+
+    def pick(tag):
+        if c.bool(tag + '.inside'):
+            return 0.02 + 0.96 * (abs(c.real(tag)) % 1)
+        k = 1 + int(abs(c.real(tag + '.joint')) * 10) % (n - 1)
+        return path.t2T(k, 0) + OFFS[int(abs(c.real(tag + '.off')) * 10) % len(OFFS)]
+    T0, T1 = pick('T0'), pick('T1')
+    c.assume(0 < T0 < 1 and 0 < T1 < 1 and abs(T1 - T0) > 0.02)
+    if T0 > T1 and not closed:
+        T0, T1 = T1, T0
+    L = path.length()
+    want = path.length(T0, T1) if T0 < T1 else path.length(T0, 1) + path.length(0, T1)
+    cr = path.cropped(T0, T1)
+    c.ensures('starts-at-point(T0)', abs(cr.start - path.point(T0)) <= 1e-6 * L)
+    c.ensures('ends-at-point(T1)', abs(cr.end - path.point(T1)) <= 1e-6 * L)
+    c.ensures('pieces-joined', all(abs(cr[i].end - cr[i + 1].start) <= 1e-6 * L for i in range(len(cr) - 1)))
+    c.ensures('length-is-length(T0,T1)', abs(cr.length() - want) <= 1e-5 * L)
+
+
+def _fold(z):
+    import math
+    return complex(math.fmod(z.real * 12345.678, 10), math.fmod(z.imag * 12345.678, 10))   # the sampler draws many magnitudes
+
+
 # ------------------------------------------------------------------------------------ arcs
 # Arc.reversed / cropped / split build NEW arcs from endpoint parameters and the constructor
 # re-parameterises from scratch (C04).  Proved here: the call-site contract - the constructor
